@@ -147,6 +147,8 @@ def collect_reads_in_parallel(sample, chr_id, args):
         for g in read_grouper.read_groups:
             group_dump.write("%s\n" % g)
     alignment_collector.alignment_stat_counter.dump(bamstat_file)
+    # all files must be complete on disk before the lock file declares them ready for --resume
+    tmp_printer.close()
 
     logger.info("Finished processing chromosome " + chr_id)
     open(lock_file, "w").close()
@@ -309,6 +311,11 @@ def construct_models_in_parallel(sample, chr_id, dump_filename, args, read_group
             tmp_extended_gff_printer.dump(gene_info, all_models)
         aggregator.transcript_model_global_counter.dump()
         transcript_stat_counter.dump(transcript_stat_file)
+    # all files must be complete on disk before the lock file declares them ready for --resume
+    aggregator.close()
+    tmp_gff_printer.close()
+    tmp_extended_gff_printer.close()
+    sqanti_t2t_printer.close()
     logger.info("Finished processing chromosome " + chr_id)
     open(lock_file, "w").close()
 
@@ -391,6 +398,11 @@ class ReadAssignmentAggregator:
                 self.args.transcript_quantification,
                 read_groups=self.read_groups, output_zeroes=False)
             self.transcript_model_global_counter.add_counters([self.transcript_model_grouped_counter])
+
+    def close(self):
+        self.global_printer.close()
+        if self.args.sqanti_output:
+            self.t2t_sqanti_printer.close()
 
     def finalize_aggregators(self, sample):
         if self.args.genedb:
